@@ -2,7 +2,8 @@
 (* The mos language server as a state machine, at the grain of one JSON-RPC message.        *)
 (*                                                                                          *)
 (* State (record s):                                                                        *)
-(*   buf    file -> text id, or NoText when the client has no open buffer for the file       *)
+(*   cli    file -> text id the CLIENT has in its open buffer (NoText: not open): the truth    *)
+(*   buf    file -> text id the SERVER holds for it; differs from cli only through a defect    *)
 (*   has    a cached parse tree / codegen exists (the configured build entry was resolvable  *)
 (*          when the last analysis ran);  main: the entry file of that analysis              *)
 (*   an     file -> text id: the file map the cached parse tree / codegen was computed from  *)
@@ -24,7 +25,8 @@ EXTENDS Integers, Sequences, FiniteSets, TLC
 NoText == "-"
 
 AllDeviations == {"CloseDoesNotReanalyse", "RenameTaintsCache", "StaleDiagnosticsForDroppedFile",
-                  "PrepareRenameSlicesPastEol", "SourceLinePastEof", "CompletionSplitsInsideChar"}
+                  "PrepareRenameSlicesPastEol", "SourceLinePastEof", "CompletionSplitsInsideChar",
+                  "DidChangeFirstEntryWins", "NonFileUriPanics"}
 
 (* what the server would read for every file: the open buffer, else the disk *)
 Eff(disk, buf) == [f \in DOMAIN disk |-> IF buf[f] # NoText THEN buf[f] ELSE disk[f]]
@@ -36,7 +38,7 @@ Resolvable(disk, buf, cfg, entryOf(_)) ==
   LET e == EntryFile(disk, buf, cfg, entryOf) IN e \in DOMAIN disk /\ Eff(disk, buf)[e] # NoText
 
 (* start-up: the server analyses the project as it is on disk *)
-S0(disk, ok, main) == [buf |-> [f \in DOMAIN disk |-> NoText], has |-> ok, main |-> main, an |-> disk, taint |-> FALSE, stale |-> {},
+S0(disk, ok, main) == [buf |-> [f \in DOMAIN disk |-> NoText], cli |-> [f \in DOMAIN disk |-> NoText], has |-> ok, main |-> main, an |-> disk, taint |-> FALSE, stale |-> {},
                        shown |-> [f \in DOMAIN disk |-> "none"], alive |-> TRUE, death |-> ""]
 
 (* didOpen / didChange: insert the text, throw the cached analysis away, analyse the effective file map, publish.  *)
@@ -44,18 +46,30 @@ S0(disk, ok, main) == [buf |-> [f \in DOMAIN disk |-> NoText], has |-> ok, main 
 (* dropped and nothing is analysed or published: tree = {}).                                                         *)
 (* tree = files of the new parse tree, diag(f) = id of the diagnostics computed for f.                               *)
 (* Code today: publishes for the files of the new tree only; a file that dropped out keeps what was shown for it.   *)
-Insert(s, disk, f, t, ok, main, tree, diag(_), devs) ==
+(* t is what the server takes as the new text, tc what the client's buffer holds (equal unless a defect is at work).  *)
+InsertC(s, disk, f, t, tc, ok, main, tree, diag(_), devs) ==
   LET b  == [s.buf EXCEPT ![f] = t]
       sh == [g \in DOMAIN disk |-> IF g \in tree THEN diag(g)
                                    ELSE IF "StaleDiagnosticsForDroppedFile" \in devs THEN s.shown[g] ELSE "none"] IN
-  [s EXCEPT !.buf = b, !.has = ok, !.main = main, !.an = Eff(disk, b), !.taint = FALSE, !.stale = {}, !.shown = sh]
+  [s EXCEPT !.buf = b, !.cli = [@ EXCEPT ![f] = tc], !.has = ok, !.main = main, !.an = Eff(disk, b), !.taint = FALSE, !.stale = {}, !.shown = sh]
+Insert(s, disk, f, t, ok, main, tree, diag(_), devs) == InsertC(s, disk, f, t, t, ok, main, tree, diag, devs)
+
+(* didChange carries a sequence ts of full texts.  Ideal: the last one is the buffer; none changes nothing.           *)
+(* Code today (documents.rs `content_changes.first().unwrap()'): the FIRST one is taken, none panics.                  *)
+ChangeText(ts, devs) == IF "DidChangeFirstEntryWins" \in devs THEN ts[1] ELSE ts[Len(ts)]
+EmptyChangeKills(devs) == "DidChangeFirstEntryWins" \in devs
+(* a notification or request for a document whose URI is not a file (untitled:..): ideal - a document outside the      *)
+(* project; code today: Url::to_file_path().unwrap() panics                                                           *)
+NonFileKills(devs) == "NonFileUriPanics" \in devs
+(* ... most handlers look at the cached analysis first and answer null when there is none *)
+NonFileKillsMsg(kind, has, devs) == NonFileKills(devs) /\ (has \/ kind \in {"open", "formatting", "onType", "codeLens"})
 
 (* didClose.  Ideal: the file is read from disk again, so analyse and publish.  Code today: forget the buffer only. *)
 Close(s, disk, f, ok, main, tree, diag(_), devs) ==
   LET b == [s.buf EXCEPT ![f] = NoText] IN
   IF "CloseDoesNotReanalyse" \in devs
-    THEN [s EXCEPT !.buf = b, !.stale = IF s.buf[f] # disk[f] THEN @ \cup {f} ELSE @]
-    ELSE [s EXCEPT !.buf = b, !.has = ok, !.main = main, !.an = Eff(disk, b), !.taint = FALSE, !.stale = {},
+    THEN [s EXCEPT !.buf = b, !.cli = [@ EXCEPT ![f] = NoText], !.stale = IF s.buf[f] # disk[f] THEN @ \cup {f} ELSE @]
+    ELSE [s EXCEPT !.buf = b, !.cli = [@ EXCEPT ![f] = NoText], !.has = ok, !.main = main, !.an = Eff(disk, b), !.taint = FALSE, !.stale = {},
                    !.shown = [g \in DOMAIN disk |-> IF g \in tree THEN diag(g) ELSE "none"]]
 
 (* a rename request that returned an edit: the code renames the edges of the cached symbol table as a side effect *)
@@ -103,11 +117,12 @@ TokensOK(lt, toks) ==
 (* server shows.  Totality: no request ends the process.                                                             *)
 FreshAnalysis(s, disk, ok, main, seen(_)) ==
   /\ s.has = ok
-  /\ s.has => (s.main = main /\ seen(s.an) = seen(Eff(disk, s.buf)) /\ ~s.taint)
-FreshShown(s, disk, tree, diag(_)) == SomeOpen(s.buf) => s.shown = [g \in DOMAIN disk |-> IF g \in tree THEN diag(g) ELSE "none"]
+  /\ s.has => (s.main = main /\ seen(s.an) = seen(Eff(disk, s.cli)) /\ ~s.taint)
+FreshShown(s, disk, tree, diag(_)) == SomeOpen(s.cli) => s.shown = [g \in DOMAIN disk |-> IF g \in tree THEN diag(g) ELSE "none"]
 Total(s) == s.alive
 
 (* narrow witnesses of the deviations recorded for the tree *)
 CloseWitness(s) == s.stale # {}
 TaintWitness(s) == s.taint
+LagWitness(s) == s.buf # s.cli             \* the server holds another text than the client: a didChange with several entries
 ================================================================================
